@@ -91,7 +91,7 @@ def gen_snippet(r, idx):
 
 
 def gen_history(rngs, n_ops, fault_rate=0.3, fault_classes=None, io_ops=True, size=None, threaded_rate=0.0,
-                exotic_args=True, before_after=False, nested_calls=False):
+                exotic_args=True, before_after=False, nested_calls=False, extra_file=False):
     from sim import seeds
     r = rngs[seeds.OPS]
     rf = rngs[seeds.FAULTS]
@@ -99,6 +99,11 @@ def gen_history(rngs, n_ops, fault_rate=0.3, fault_classes=None, io_ops=True, si
                              allow_input=True, planted_raise=r.random() < 0.15)
     stmts = [list(s) for s in LIBRARY] + prog['files']['answer.py']
     files = {'answer.py': stmts}
+    if extra_file:
+        # a second student file that the instructor runs by name: run(filename='extra.py')
+        files['extra.py'] = [["print('extra file running')"], ['extra_value = %d' % r.randint(1, 9)],
+                             ['def extra_fn(x):', "    print('extra_fn', x)", '    return x + extra_value'],
+                             ["entered = input('<<x1>>')" if r.random() < 0.5 else 'entered = None'], ['print(extra_fn(1), entered)']]
     fault_classes = fault_classes or faults.ALL
     ops = []
     ran = False
@@ -113,6 +118,8 @@ def gen_history(rngs, n_ops, fault_rate=0.3, fault_classes=None, io_ops=True, si
             op = {'op': 'run'}
             if r.random() < 0.3:
                 op['inputs'] = [r.choice(['1', 'x']) for _ in range(r.randint(0, 2))]
+        elif extra_file and c < 0.16:
+            op = {'op': 'run', 'filename': 'extra.py'}
         elif c < 0.28:
             op = {'op': 'run', 'code': gen_snippet(r, i)}
             if before_after and r.random() < 0.3:
